@@ -147,10 +147,12 @@ func init() {
 							continue
 						}
 						exceeds := false
-						if FieldOfSelector(info, be.X) == steps && FieldOfSelector(info, be.Y) == maxSteps && be.Op == token.GTR && a.Positive {
+						// a local defined once from the field (`budget := r.maxSteps`) reads as the field
+						bx, by := resolveLocal(info, fd.Body, be.X), resolveLocal(info, fd.Body, be.Y)
+						if FieldOfSelector(info, bx) == steps && FieldOfSelector(info, by) == maxSteps && ((be.Op == token.GTR && a.Positive) || (be.Op == token.LEQ && !a.Positive)) {
 							exceeds = true
 						}
-						if FieldOfSelector(info, be.X) == maxSteps && FieldOfSelector(info, be.Y) == steps && be.Op == token.LSS && a.Positive {
+						if FieldOfSelector(info, bx) == maxSteps && FieldOfSelector(info, by) == steps && ((be.Op == token.LSS && a.Positive) || (be.Op == token.GEQ && !a.Positive)) {
 							exceeds = true
 						}
 						if exceeds && fc.edgeReturns(cfgEdge{b, k}, nil) {
